@@ -5,11 +5,13 @@ package main
 // lines) it writes.  No judgement here.
 
 import (
+	"fmt"
 	"io/ioutil"
 	"os"
 	"path/filepath"
 	"strings"
 
+	"github.com/go-gts/gts"
 	"github.com/go-gts/gts/seqio"
 )
 
@@ -101,5 +103,127 @@ func runStream(env *cliEnv, c J, emit func(J)) {
 		list = append(list, st)
 	}
 	ev["outs"] = list
+	emit(ev)
+}
+
+// runCliSearch (C18, command-line clause): one run of `gts search` per item on a one-record GenBank file;
+// logs the residues and the locations of the misc_feature features of the output.
+func runCliSearch(env *cliEnv, c J, emit func(J)) {
+	id := asStr(c["id"])
+	dir, err := ioutil.TempDir("", "verif-cs-")
+	if err != nil {
+		panic(err)
+	}
+	defer os.RemoveAll(dir)
+	for n, iv := range asList(c["items"]) {
+		it := iv.(map[string]interface{})
+		s := intsToBytes(it["s"])
+		q := intsToBytes(it["q"])
+		args := []string{}
+		if asBool(it["exact"]) {
+			args = append(args, "-e")
+		}
+		if asBool(it["nocomp"]) {
+			args = append(args, "--no-complement")
+		}
+		args = append(args, "@"+string(q))
+		ev := J{"ev": "clisearch", "case": id, "s": it["s"], "q": it["q"], "exact": it["exact"], "nocomp": it["nocomp"],
+			"cmdline": "search " + strings.Join(args, " ") + " < " + string(s), "status": -1, "parseerr": "", "hits": []interface{}{}, "res": []int{}}
+		rec := J{"name": "cs", "res": it["s"], "topo": "linear", "kind": "gb", "feats": []interface{}{}}
+		text, perr := writeGenBank(makeSeq(rec))
+		if perr != nil {
+			ev["parseerr"] = "cannot write the input record"
+			emit(ev)
+			continue
+		}
+		inName := fmt.Sprintf("cs-%s-%d", id, n)
+		ioutil.WriteFile(filepath.Join(env.inputs, inName), []byte(text), 0644)
+		res := env.run(dir, "search", args, inName, "stdout", true, n)
+		os.Remove(filepath.Join(env.inputs, inName))
+		ev["status"] = res.status
+		if res.status == 0 {
+			outs, oerrs, op := scanAll(string(res.out))
+			if op != nil || oerrs != "" || len(outs) != 1 {
+				ev["parseerr"] = "output not readable: " + oerrs
+			} else {
+				ev["res"] = bytesToInts(outs[0].Bytes())
+				hits := []interface{}{}
+				for _, f := range outs[0].Features() {
+					if f.Key != "misc_feature" {
+						continue
+					}
+					switch v := f.Loc.(type) {
+					case gts.Ranged:
+						hits = append(hits, J{"h": v.Start, "t": v.End, "strand": 1})
+					case gts.Point:
+						hits = append(hits, J{"h": int(v), "t": int(v) + 1, "strand": 1})
+					case gts.Complemented:
+						switch w := v.Location.(type) {
+						case gts.Ranged:
+							hits = append(hits, J{"h": w.Start, "t": w.End, "strand": -1})
+						case gts.Point:
+							hits = append(hits, J{"h": int(w), "t": int(w) + 1, "strand": -1})
+						default:
+							hits = append(hits, J{"h": -1, "t": -1, "strand": -1})
+						}
+					default:
+						hits = append(hits, J{"h": -1, "t": -1, "strand": 0})
+					}
+				}
+				ev["hits"] = hits
+			}
+		}
+		emit(ev)
+	}
+}
+
+// runCliPipe (C01, command-line clause): gts A < input | gts B; logs the exit statuses, whether seqio reads
+// what A and B wrote, and whether re-writing the records read from B's output reproduces it.
+func runCliPipe(env *cliEnv, c J, emit func(J)) {
+	id := asStr(c["id"])
+	dir, err := ioutil.TempDir("", "verif-pp-")
+	if err != nil {
+		panic(err)
+	}
+	defer os.RemoveAll(dir)
+	a := c["first"].(map[string]interface{})
+	b := c["second"].(map[string]interface{})
+	ev := J{"ev": "clipipe", "case": id, "cmdline": asStr(a["cmd"]) + " " + strings.Join(strList(a["args"]), " ") + " < " + asStr(c["input"]) + " | " + asStr(b["cmd"]) + " " + strings.Join(strList(b["args"]), " "),
+		"status1": -1, "status2": -1, "len1": 0, "rerr1": "", "rerr": "", "fixed": false, "hang": false}
+	r1 := env.run(dir, asStr(a["cmd"]), strList(a["args"]), asStr(c["input"]), "stdout", true, 0)
+	ev["status1"] = r1.status
+	ev["len1"] = len(r1.out)
+	ev["hang"] = r1.hang
+	if r1.status == 0 && len(r1.out) > 0 {
+		if _, errs, pp := scanAll(string(r1.out)); pp != nil || errs != "" {
+			ev["rerr1"] = "unreadable: " + errs
+		}
+		mid := "pipe-" + id
+		ioutil.WriteFile(filepath.Join(env.inputs, mid), r1.out, 0644)
+		r2 := env.run(dir, asStr(b["cmd"]), strList(b["args"]), mid, "stdout", true, 1)
+		os.Remove(filepath.Join(env.inputs, mid))
+		ev["status2"] = r2.status
+		ev["hang"] = r2.hang
+		if r2.status == 0 {
+			seqs, errs, pp := scanAll(string(r2.out))
+			if pp != nil {
+				ev["rerr"] = "panic while reading"
+			} else if errs != "" {
+				ev["rerr"] = errs
+			} else {
+				var sb strings.Builder
+				ok := true
+				for _, s := range seqs {
+					t, perr := writeGenBank(s)
+					if perr != nil {
+						ok = false
+						break
+					}
+					sb.WriteString(t)
+				}
+				ev["fixed"] = ok && sb.String() == string(r2.out)
+			}
+		}
+	}
 	emit(ev)
 }
